@@ -284,6 +284,11 @@ def shrink_case(part, case, sig, budget_s=120):
     t_end = time.time() + budget_s
 
     def fails(c):
+        if isinstance(c, dict) and "prog" in c:
+            from .model import wellformed
+
+            if not wellformed(c["prog"]):
+                return False
         try:
             part.run(c)
         except Violation as v:
@@ -327,12 +332,6 @@ def shrink_case(part, case, sig, budget_s=120):
                 yield 0.0
             if x != int(x) if abs(x) < 1e300 else False:
                 yield float(int(x))
-        elif isinstance(x, str):
-            if len(x) > 1:
-                yield x[: len(x) // 2]
-                yield x[len(x) // 2 :]
-                yield x[1:]
-                yield x[:-1]
 
     cur = case
     improved = True
